@@ -1385,8 +1385,21 @@ func (e *Entry) ReadOnly() bool {
 	case e.Config == TSUnset:
 		return e.Parent.ReadOnly()
 	default:
-		return !e.Config.Value()
+		// A config statement has no effect inside the output of an rpc
+		// or action (RFC 7950 7.21.1): a node that says "config true"
+		// there, typically through a grouping, is still read-only.
+		return !e.Config.Value() || e.inOutput()
 	}
+}
+
+// inOutput reports whether e is, or lies in, the output of an rpc or action.
+func (e *Entry) inOutput() bool {
+	for ; e != nil; e = e.Parent {
+		if e.Kind == OutputEntry {
+			return true
+		}
+	}
+	return false
 }
 
 // Find finds the Entry named by name relative to e.
